@@ -430,15 +430,20 @@ class C09(PropertyCheck):
         """Proportions the way users write them (k/len, 0.1, 1/3: doubles that float32 rounds up or down)
         with lengths that make prop*len border an integer, and the extreme float32 draws."""
         nice = [1 / 3, 2 / 3, 1 / 7, 0.1, 0.3, 0.7, 0.9, 7 / 13, 1.1, 1 / 9, 5 / 11]
+        crossing = self.crossing_pairs()
         for _ in range(count):
             mode = rng.choice(MODES)
             N = rng.randint(1, 2)
             lens, props = [], []
             L = rng.randint(3, 40)
+            if rng.random() < 0.5:
+                L = rng.choice(sorted(crossing))
             for side in range(2):
                 r = rng.random()
                 if r < 0.6:
-                    k = rng.randint(1, L if mode == "reflect" else 2 * L)
+                    ks = [k for k in crossing.get(L, []) if k <= L or mode != "reflect"]
+                    k = rng.choice(ks) if ks and rng.random() < 0.7 else rng.randint(
+                        1, L if mode == "reflect" else 2 * L)
                     p = k / L
                 elif r < 0.9:
                     p = rng.choice(nice)
@@ -459,6 +464,26 @@ class C09(PropertyCheck):
                 c["p1"] = c["p0"]
                 c["scalar_prop"] = True
             yield c
+
+    _crossing = None
+
+    @classmethod
+    def crossing_pairs(cls):
+        """{len: [k, ...]} for len <= 40, k <= 2 len: the double k/len lies below k/len but rounds UP to float32,
+        far enough for float32(k/len) * len to round above k — the proportions for which float32 arithmetic
+        and the largest draw give k added elements although prop * len < k."""
+        if cls._crossing is None:
+            import numpy as np
+            out = {}
+            u = np.float32(1 - 2.0 ** -24)
+            for L in range(3, 41):
+                for k in range(1, 2 * L + 1):
+                    p = k / L
+                    a = np.float32(np.float32(p) * np.float32(L))
+                    if Fraction(int(np.float32(a * u))) > Fraction(p) * L:
+                        out.setdefault(L, []).append(k)
+            cls._crossing = out
+        return cls._crossing
 
     def gen_shapes(self, rng, count):
         """What each function accepts, as a function of the SHAPES of its arguments only (legal data inside):
@@ -975,7 +1000,7 @@ class C09(PropertyCheck):
         if case["fn"] == "shapes":
             # the documented shapes are accepted, everything else is refused with the documented class
             got = impl.get("error") or "ok"
-            if got != model["documented"]:
+            if model["documented"] is not None and got != model["documented"]:
                 return [(f"{case['target']} with shapes { {k: v for k, v in case.items() if k.endswith('shape')} }"
                          f": documented {model['documented']}, got {got} ({impl.get('message')})", None)]
             return []
@@ -987,6 +1012,8 @@ class C09(PropertyCheck):
         fails = []
         if impl.get("args_changed"):
             fails.append((f"{fn} modified its argument(s) {impl['args_changed']} in place", None))
+        if "dtype" in impl and impl["dtype"] != case.get("dtype", "float32"):
+            fails.append((f"{fn} returned dtype {impl['dtype']} for input dtype {case.get('dtype')}", None))
         if spec is None:
             return fails
         sig = self.signature(case, impl, model)
@@ -1030,6 +1057,13 @@ class C09(PropertyCheck):
             return fails
         if impl["shape"][0] != N or impl["shape"][2:] != case["trail"]:
             fails.append((f"output shape {impl['shape']} does not keep batch/trailing dims", sig))
+        if fn == "shift" and impl.get("f32_lens") is not None and "amounts_f32" in model:
+            # machinery: the Lean rounding models (roundBits 24 / 53) against numpy's float32 / python's double
+            lean32 = [L + a + b for L, (a, b) in zip(case["lens"], model["amounts_f32"])]
+            lean_tie = model["amounts_f64"] != model["amounts_exact"]
+            if lean32 != impl["f32_lens"] or lean_tie != impl["rounding_tie"]:
+                raise AssertionError(f"Lean rounding model differs from numpy: f32 {lean32} vs {impl['f32_lens']}, "
+                                     f"float64 tie {lean_tie} vs {impl['rounding_tie']}")
         if fn == "shift":
             if impl.get("f32_lens") is not None and impl["lens"] == impl["f32_lens"] != impl.get("exact_lens"):
                 sig = SIG_F32        # the amounts float32 arithmetic gives (prop rounded to float32 first)
@@ -1127,6 +1161,46 @@ class C09(PropertyCheck):
         report["extra"]["spec_vs_torch_pad"] = {"cases": len(reqs), "mismatches": len(bad)}
         if bad:
             raise AssertionError(f"Lean padSeq differs from torch.nn.functional.pad: {bad[0]}")
+        self.rounding_hypotheses(rng, tier, report)
+
+    def rounding_hypotheses(self, rng, tier, report):
+        """`C09_shift_amount_rounded` assumes `Rounding rnd` (monotone, exact on naturals, a product with a
+        representable u < 1 never rounds back up to the other factor). Sampled here on IEEE float32 and
+        float64 themselves (numpy), adversarial values included — evidence for the hypothesis, not a proof."""
+        import numpy as np
+        n = 4000 if tier == "quick" else 40000
+        bad = []
+        for ft, prec in ((np.float32, 24), (np.float64, 53)):
+            us = [ft(1) - ft(2.0) ** -prec, ft(1) - ft(2.0) ** -(prec - 1), ft(0.5), ft(2.0) ** -prec]
+            for i in range(n):
+                k = i % 4
+                if k == 0:
+                    a = ft(2.0) ** rng.randint(-10, 20)                       # powers of two
+                elif k == 1:
+                    a = ft(rng.randint(1, 1 << 20))                           # naturals
+                elif k == 2:
+                    a = ft(ft(2.0) ** rng.randint(-5, 20) * (1 + rng.random() * 2.0 ** -rng.randint(1, prec)))
+                else:
+                    a = ft(rng.random() * 2000)
+                u = us[rng.randrange(len(us))] if rng.random() < 0.7 else ft(rng.random())
+                if a <= 0 or not (0 <= u < 1):
+                    continue
+                if not ft(a * u) < a:
+                    bad.append(("mul_lt", ft.__name__, float(a), float(u)))
+                b = ft(rng.random() * 2000)
+                if (Fraction(float(a)) <= Fraction(float(b))) != (a <= b):
+                    bad.append(("mono", ft.__name__, float(a), float(b)))
+                # rounding a product is monotone in the exact product
+                c, d = ft(rng.random() * 64), ft(rng.random() * 64)
+                if Fraction(float(a)) * Fraction(float(u)) <= Fraction(float(c)) * Fraction(float(d)) \
+                        and not ft(a * u) <= ft(c * d):
+                    bad.append(("mono_mul", ft.__name__, float(a), float(u), float(c), float(d)))
+                m = rng.randint(0, (1 << prec) - 1)
+                if Fraction(float(ft(m))) != m:
+                    bad.append(("nat_exact", ft.__name__, m))
+        report["extra"]["rounding_hypotheses_sampled"] = {"samples_per_format": n, "violations": len(bad)}
+        if bad:
+            raise AssertionError(f"IEEE arithmetic violates a hypothesis of C09_shift_amount_rounded: {bad[:3]}")
 
     # ------------------------------------------------------------------ evidence helpers
     def nontrivial(self, case, impl):
